@@ -179,19 +179,9 @@ def list_writers(ctx: Context):
     return out
 
 
-def run(ctx: Context, rep) -> None:
-    rep.not_decided = (
-        "the recursive merge over concrete histories (only its per-call "
-        "accounting invariant and de-duplication are decided); equality of "
-        "the recorded counts with what a decoder finds in the files; "
-        "existence of listed files at run time")
-    rep.assumptions += [
-        "loaded shard lists satisfy n = sum(shards) + sum(children) "
-        "(induction over sessions; fresh lists trivially)",
-        "annotations identify ShardsList-typed expressions",
-    ]
+def check_delta(ctx: Context, rep, rule: str) -> None:
     rep.rule(
-        "C04.delta",
+        rule,
         "for every function that writes number_of_examples, shard_files or "
         "children_shard_lists of a ShardsList (who-may-write, typed through "
         "annotations): starting from delta = n - sum(shards) - "
@@ -214,20 +204,35 @@ def run(ctx: Context, rep) -> None:
             eff = d.block(fn.node.body)
             if eff == TOP:
                 node, why = d.problems[0] if d.problems else (fn.node, "?")
-                rep.ob("C04.delta", False, loc=fn.loc(node), where=fn.qualname,
+                rep.ob(rule, False, loc=fn.loc(node), where=fn.qualname,
                        construct=short(node, 80),
                        message=f"accounting of `{obj}` cannot be shown "
                        f"balanced: {why}")
             else:
-                rep.ob("C04.delta", not eff, loc=fn.loc(), where=fn.qualname,
+                rep.ob(rule, not eff, loc=fn.loc(), where=fn.qualname,
                        construct=f"delta({obj}) = " + (" ".join(
                            f"{'+' if v > 0 else '-'}{abs(v)}*{k}"
                            for k, v in sorted(eff.items())) or "0"),
                        message="list total must change by exactly what is "
                        "added to / removed from its shards and children")
-    rep.info("C04.delta", "writers of the accounting fields: " +
+    rep.info(rule, "writers of the accounting fields: " +
              ", ".join(f"{k.split(':')[1]}({', '.join(sorted(v))})"
                        for k, v in sorted(writers.items())))
+
+
+
+def run(ctx: Context, rep) -> None:
+    rep.not_decided = (
+        "the recursive merge over concrete histories (only its per-call "
+        "accounting invariant and de-duplication are decided); equality of "
+        "the recorded counts with what a decoder finds in the files; "
+        "existence of listed files at run time")
+    rep.assumptions += [
+        "loaded shard lists satisfy n = sum(shards) + sum(children) "
+        "(induction over sessions; fresh lists trivially)",
+        "annotations identify ShardsList-typed expressions",
+    ]
+    check_delta(ctx, rep, "C04.delta")
 
     check_counters(ctx, rep, "C04.after")
     rep.rule("C04.after",
